@@ -9,14 +9,15 @@
 (*   triples (AssocAll) or on all triples (P, Q, R) with Q, R from a       *)
 (*   sample of the points (every AssocStep-th point and the 2-torsion);    *)
 (*   Lagrange: [#E]P = O for every point.                                  *)
-(* One leaf state per curve (a, b); a ranges over ASet, b over all of F_p2.*)
+(* One leaf state per curve (a, b); a ranges over ASet (all of F_p2 or      *)
+(* {0, 1, u, -3}), b over all of F_p2 (BSet = "all") or b_1 in {0, 1}.      *)
 (* The same states check that the balanced-recursion evaluators of         *)
 (* model/CurveXB are the definitions: XMulB = XMulNat (all points, all     *)
 (* scalars 0..MaxK), TPowB = TExp on F_p2, PMulB = PMulNat on the curve    *)
 (* y^2 = x^3 + a_0 x + b_0 over F_p when that is nonsingular.              *)
 (***************************************************************************)
 EXTENDS CurveXB, FiniteSets, TLC
-CONSTANTS p, usq, ASet, AssocAll, AssocStep, MaxK
+CONSTANTS p, usq, ASet, BSet, AssocAll, AssocStep, MaxK
 VARIABLES a, b, ph
 
 P == BFromNat(p)
@@ -35,13 +36,13 @@ Nonsingular == ~TIsZero(T, 1, Disc)
 (* the states of one parent are generated - and their invariant evaluated - by one worker.           *)
 Init == a = El(0, 0) /\ b = El(0, 0) /\ ph = 0
 Next == \/ ph = 0 /\ a' \in AVals /\ (\E b0 \in F0 : b' = <<b0, <<>>>>) /\ ph' = 1
-        \/ ph = 1 /\ a' = a /\ (\E b1 \in F0 : b' = <<b[1], b1>>) /\ ph' = 2
+        \/ ph = 1 /\ a' = a /\ (\E b1 \in (IF BSet = "all" THEN F0 ELSE {<<>>, <<1>>}) : b' = <<b[1], b1>>) /\ ph' = 2
 Spec == Init /\ [][Next]_<<a, b, ph>>
 
 (* all affine points: for every x the y with y^2 = rhs(x), through the table of squares *)
-Squares == {<<M(y, y), y>> : y \in F2}
+Squares == TLCEval({<<M(y, y), y>> : y \in F2})
 Points == LET sq == Squares IN
-          UNION {{XPt(x, s[2]) : s \in {t \in sq : t[1] = XRhs(x, Crv)}} : x \in F2}
+          TLCEval(UNION {{XPt(x, s[2]) : s \in {t \in sq : t[1] = XRhs(x, Crv)}} : x \in F2})
 Seq2Set(s) == {s[i] : i \in 1..Len(s)}
 
 RECURSIVE SetToSeq(_)
@@ -52,10 +53,10 @@ GroupLaw ==
     LET c    == Crv
         O    == XInf(c)
         aff  == Points
-        pts  == aff \cup {O}
+        pts  == TLCEval(aff \cup {O})
         n    == Cardinality(pts)
         ps   == SetToSeq(aff)
-        smp  == {ps[i] : i \in {j \in 1..Len(ps) : j % AssocStep = 1}} \cup {Q \in aff : TIsZero(T, 1, Q.y)} \cup {O}
+        smp  == TLCEval({ps[i] : i \in {j \in 1..Len(ps) : j % AssocStep = 1}} \cup {Q \in aff : TIsZero(T, 1, Q.y)} \cup {O})
         QR   == IF AssocAll THEN pts ELSE smp
     IN  /\ \A Q \in pts : XOnCurve(Q, c)
         /\ \A Q \in pts : XAdd(Q, O, c) = Q /\ XAdd(O, Q, c) = Q
@@ -73,7 +74,7 @@ Balanced ==
     /\ TPowB(T, 1, b, BFromNat(p * p)) = b                                                  \* x^(p^2) = x in F_p2
     /\ LET c1 == [p |-> P, a |-> a[1], b |-> b[1]]
            nonsing == FAdd(FMul(BMod(<<4>>, P), FMul(FSqr(c1.a, P), c1.a, P), P), FMul(BMod(<<27>>, P), FSqr(c1.b, P), P), P) # <<>>
-           pts1 == UNION {{Pt(x, y) : y \in {z \in F0 : FSqr(z, P) = Rhs(x, c1)}} : x \in F0}
+           pts1 == TLCEval(UNION {{Pt(x, y) : y \in {z \in F0 : FSqr(z, P) = Rhs(x, c1)}} : x \in F0})
        IN  nonsing => \A Q \in pts1 : \A k \in 0..MaxK : PMulB(BFromNat(k), Q, c1) = PMulNat(BFromNat(k), Q, c1)
 
 Check == ph = 2 => (GroupLaw /\ Balanced)
